@@ -97,6 +97,9 @@ def execute(program, ctx, mode):
 
     events = []
     zr.notify = lambda ev: events.append(ev)
+    # swarm knob (one world in four): one of the names is not in Unicode normal form C ("e" + combining acute, as file systems
+    # and browsers produce) -- a name is a key as it stands, in every method alike
+    NAMES = ['', 'a', 'e\u0301' if h64(program.get('seed') or 0, 'non-nfc-name') % 4 == 0 else 'b']
     shapeno = [0]
 
     def shaped(req):
